@@ -191,6 +191,11 @@ def _resolve(interp, text, args, arg_tys, dest_ty, rt0):
     tname = tbase[1] if tbase[0] == 'path' else trait
     if info['extra']:
         raise Unresolved(text)
+    if tname == 'From' and tbase[0] == 'path' and len(tbase[3]) == 1:
+        from tyunify import loosely_equal
+        xt_ = parse_ty(X)
+        if xt_[0] == 'path' and tbase[3][0][0] == 'path' and xt_[1] == tbase[3][0][1] and loosely_equal(xt_, tbase[3][0]) and loosely_equal(tbase[3][0], xt_):
+            return ('model', lambda it, a, info_: a[0], info)       # std's reflexive `impl<T> From<T> for T`
     opts = []
     for g in cands:
         imp = prog.impl_of.get(g.key)
